@@ -36,7 +36,7 @@ Script2 == << Asg("x", Ref("v")), Bump("n"),
 Script3 == << Ret(Ref("v")) >>                      \* the verdict of Run for every kind of value
 
 VVals == << I(5), I(0), I(-2), F(3, 2), F(0, 1), Sx, S(<<>>), B(TRUE), B(FALSE), N, A(<<I(1)>>), A(<<>>), H(<<<<Sx, I(1)>>>>), H(<<>>) >>
-HKinds == << <<"val", I(7)>>, <<"val", B(FALSE)>>, <<"val", N>>, <<"val", Sx>>, <<"log">>, <<"same">>, <<"single", B(TRUE)>>, <<"single", N>> >>
+HKinds == << <<"val", I(7)>>, <<"val", B(FALSE)>>, <<"val", N>>, <<"val", Sx>>, <<"log">>, <<"same">>, <<"single", B(TRUE)>>, <<"single", N>>, <<"pack">> >>
 \* what the specification's host table holds for a kind
 HostKind(k) == IF k[1] = "single" THEN <<"val", k[2]>> ELSE k
 
